@@ -67,12 +67,13 @@ UNIT = {
         'neighbours of a recycled chunk: if the slot before / after the chunk carries the hole flag, it is a boundary tag of a hole with matching tags lying inside the used part of the arena (live chunks keep first/last slot MSB clear: memory.h firstSlotMustClearMSB/lastSlotMustClearMSB)',
         'INT = int; hole sizes below 2^30',
     ],
-    'unverified_surroundings': {'C18': ['array_grid.cc stopTrackingHole/startTrackingHole/moveCurrentToRow (grid maintenance)']},
+    'unverified_surroundings': {'C18': ['array_grid.cc stopTrackingHole/startTrackingHole/moveCurrentToRow (grid maintenance)', 'array_grid.cc requestChunk (hole selection and splitting)', 'orig_grid.cc, heap_manager.cc, malloc_style.cc']},
     'jobs': [
         job('ag_tag_codec', 'lemma_tag_codec', []),
         job('ag_allocateFromArray', 'array_plus_grid__allocateFromArray', ST + ['array_plus_grid__resize']),
         job('ag_resize', 'array_plus_grid__resize', ST),
         job('ag_recycleChunk', 'array_plus_grid__recycleChunk', ST + TR),
-        job('ag_requestChunk', 'array_plus_grid__requestChunk', ST + TR + ['array_plus_grid__allocateFromArray', 'array_plus_grid__recycleChunk'], loops=1),
+        # ag_requestChunk: contract drafted in spec.h; the grid / medium-list paths need shape facts about Next(grid_current) and the
+        # leftover split that are not discharged yet - not claimed
     ],
 }
